@@ -1817,6 +1817,32 @@ def mini_call(func, args: Dict[str, object], budget: int = 2000, builtins: Optio
                 raise _MiniRaise(type(ex).__name__)
         if isinstance(e, ast.UnaryOp) and isinstance(e.op, ast.USub):
             return -ev(e.operand)
+        if isinstance(e, (ast.ListComp, ast.SetComp, ast.GeneratorExp, ast.DictComp)):
+            saved_ = dict(env)
+            acc_ = []
+
+            def gen_(i_):
+                if i_ == len(e.generators):
+                    acc_.append((ev(e.key), ev(e.value)) if isinstance(e, ast.DictComp) else ev(e.elt))
+                    return
+                c_ = e.generators[i_]
+                if c_.is_async:
+                    raise MiniStop("async comprehension")
+                for v_ in ev(c_.iter):
+                    tick()
+                    assign(c_.target, v_)
+                    if all(ev(t_) for t_ in c_.ifs):
+                        gen_(i_ + 1)
+            try:
+                gen_(0)
+            finally:
+                bound_ = {x.id for c_ in e.generators for x in ast.walk(c_.target) if isinstance(x, ast.Name)}
+                for k_ in bound_:       # comprehension variables live in their own scope
+                    if k_ in saved_:
+                        env[k_] = saved_[k_]
+                    else:
+                        env.pop(k_, None)
+            return acc_ if isinstance(e, ast.ListComp) else set(acc_) if isinstance(e, ast.SetComp) else dict(acc_) if isinstance(e, ast.DictComp) else iter(acc_)
         if isinstance(e, ast.JoinedStr):
             out_ = ""
             for v_ in e.values:
